@@ -263,6 +263,9 @@ func scopeName(n ast.Node) string {
 }
 
 func recvTypeName(u *FuncUnit) string {
+	if u.Fn.Type().(*types.Signature).Recv() == nil {
+		return ""
+	}
 	t := u.Fn.Type().(*types.Signature).Recv().Type()
 	if pt, ok := t.(*types.Pointer); ok {
 		t = pt.Elem()
@@ -601,13 +604,41 @@ func c19ReplayStateID(c *Ctx) *RuleResult {
 				}
 				return true
 			})
-			if failBranch == nil {
+			var failBody *ast.BlockStmt
+			if failBranch != nil {
+				failBody = failBranch.Body
+			} else {
+				// inverted form: `if st == NFS4_OK { ...; return }` followed by the failure handling
+				ast.Inspect(scope, func(m ast.Node) bool {
+					var list []ast.Stmt
+					switch x := m.(type) {
+					case *ast.BlockStmt:
+						list = x.List
+					case *ast.CaseClause:
+						list = x.Body
+					default:
+						return true
+					}
+					for i, st := range list {
+						ifs, ok := st.(*ast.IfStmt)
+						if !ok || failBody != nil || ifs.Pos() < as.Pos() || ifs.Else != nil {
+							continue
+						}
+						be, ok := ast.Unparen(ifs.Cond).(*ast.BinaryExpr)
+						if ok && be.Op == token.EQL && exprStr(be.X) == stName && strings.HasSuffix(exprStr(be.Y), "NFS4_OK") && terminates(info, ifs.Body.List) && i+1 < len(list) {
+							failBody = &ast.BlockStmt{Lbrace: list[i+1].Pos(), List: list[i+1:], Rbrace: list[len(list)-1].End()}
+						}
+					}
+					return true
+				})
+			}
+			if failBody == nil {
 				r.bad(c.Prop, constructOf(u, "failure edge of "+exprStr(call.Fun)), posOf(p, as), "the status of startTransaction is not tested right after the call")
 				return true
 			}
 			// decision table of the failure branch: which value is returned under which outcome of the
 			// type assertions on the cached reply and of the state ID comparison
-			d := BuildDTable(u, failBranch.Body)
+			d := BuildDTable(u, failBody)
 			construct := constructOf(u, "cached reply after "+exprStr(call.Fun)+"@"+scopeName(scope))
 			if d.Err != "" {
 				r.Undecided = append(r.Undecided, construct+": "+d.Err)
@@ -616,7 +647,7 @@ func c19ReplayStateID(c *Ctx) *RuleResult {
 			// atoms
 			var isNextKey, okVariantKey string
 			var respIface *types.Named
-			ast.Inspect(failBranch.Body, func(m ast.Node) bool {
+			ast.Inspect(failBody, func(m ast.Node) bool {
 				switch x := m.(type) {
 				case *ast.CallExpr:
 					if calleeOf(info, x) == isn {
@@ -639,7 +670,7 @@ func c19ReplayStateID(c *Ctx) *RuleResult {
 				return true
 			})
 			if respIface == nil {
-				r.bad(c.Prop, construct, posOf(p, failBranch), "a retransmission (status other than NFS4_OK with a cached reply of the same operation) is not answered with the cached reply")
+				r.bad(c.Prop, construct, posOf(p, failBody), "a retransmission (status other than NFS4_OK with a cached reply of the same operation) is not answered with the cached reply")
 				return true
 			}
 			okType := respIface.Obj().Pkg().Scope().Lookup(respIface.Obj().Name() + "_NFS4_OK")
@@ -674,13 +705,13 @@ func c19ReplayStateID(c *Ctx) *RuleResult {
 			}
 			switch {
 			case nCached == 0:
-				r.bad(c.Prop, construct, posOf(p, failBranch), "a retransmission is never answered with the cached reply")
+				r.bad(c.Prop, construct, posOf(p, failBody), "a retransmission is never answered with the cached reply")
 			case bad != "":
-				r.bad(c.Prop, construct, posOf(p, failBranch), bad+": a different request that reuses the sequence number is answered with another request's reply")
+				r.bad(c.Prop, construct, posOf(p, failBody), bad+": a different request that reuses the sequence number is answered with another request's reply")
 			case len(common) == 0:
-				r.ok(construct, posOf(p, failBranch), "operation type and sequence number identify the request (no state ID in common)")
+				r.ok(construct, posOf(p, failBody), "operation type and sequence number identify the request (no state ID in common)")
 			default:
-				r.ok(construct, posOf(p, failBranch), fmt.Sprintf("cached reply returned only for an error reply or when the request's state ID is the predecessor of the reply's (%d table rows)", len(d.Rows)))
+				r.ok(construct, posOf(p, failBody), fmt.Sprintf("cached reply returned only for an error reply or when the request's state ID is the predecessor of the reply's (%d table rows)", len(d.Rows)))
 			}
 			return true
 		})
